@@ -2,10 +2,23 @@ package recovery
 
 import (
 	"encoding/json"
+	"fmt"
 	"io"
+	"slices"
 )
 
 func ListFiles(reader io.Reader) ([]string, error) {
+	return listFiles(reader, nil)
+}
+
+// ListFilesForCheckpoint lists the files referenced by the checkpoint with the
+// given ID. A checkpoints file can hold several checkpoints, and a later one
+// may have been added since the one the caller is interested in was taken.
+func ListFilesForCheckpoint(reader io.Reader, checkpointID uint64) ([]string, error) {
+	return listFiles(reader, &checkpointID)
+}
+
+func listFiles(reader io.Reader, checkpointID *uint64) ([]string, error) {
 	// Decode reader data into checkpoint list JSON document
 	data, err := io.ReadAll(reader)
 	if err != nil {
@@ -17,8 +30,17 @@ func ListFiles(reader io.Reader) ([]string, error) {
 		return nil, err
 	}
 
-	// Always use the latest checkpoint
+	// Use the latest checkpoint unless a specific one was asked for
 	ckpt := listDoc.Checkpoints[len(listDoc.Checkpoints)-1]
+	if checkpointID != nil {
+		index := slices.IndexFunc(listDoc.Checkpoints, func(doc checkpointDocument) bool {
+			return doc.ID == *checkpointID
+		})
+		if index == -1 {
+			return nil, fmt.Errorf("checkpoint %d not found in checkpoints file", *checkpointID)
+		}
+		ckpt = listDoc.Checkpoints[index]
+	}
 
 	fileNames := []string{}
 
